@@ -390,6 +390,48 @@ def replay_gen(prop, part, path):
     return True, out
 
 
+def shrink_e1(prop, part, fail, max_rounds=20):
+    """Greedy shape shrinking for a finding of engine E1: all smaller variants of the failing (shape, request) pair
+    are emitted into one package; the first variant that still fails becomes the new current scenario."""
+    tool, _ = build_tool('shapegen')
+    if tool is None:
+        return fail
+    cur = fail
+    for rnd in range(max_rounds):
+        tag = 'shrink-%d-%d' % (os.getpid(), rnd)
+        tmp = os.path.join(ROOT, '.work', tag + '.json')
+        os.makedirs(os.path.dirname(tmp), exist_ok=True)
+        json.dump(cur, open(tmp, 'w'))
+        outdir = os.path.join(H, 'gen', tag)
+        shutil.rmtree(outdir, ignore_errors=True)
+        p = subprocess.run([tool, '-shrink', tmp, '-out', outdir], cwd=H, env=goenv(), stdout=subprocess.PIPE, stderr=subprocess.STDOUT, text=True)
+        os.remove(tmp)
+        if p.returncode != 0 or not os.path.isdir(os.path.join(outdir, 'p0')):
+            shutil.rmtree(outdir, ignore_errors=True)
+            break
+        pkg = 'gen/%s/p0' % tag
+        binary, blog = build(pkg)
+        nxt = None
+        if binary is not None:
+            wd = os.path.join(ROOT, '.work', tag)
+            rc, out = run_proc(binary, 'TestShapes', wd, dict(VERIF_TIER='quick'), ['-rapid.checks=60', '-rapid.seed=%d' % seed(), '-rapid.nofailfile', '-rapid.shrinktime=5s'], 300)
+            fj = os.path.join(wd, 'fail.json')
+            if rc != 0 and os.path.exists(fj):
+                nxt = json.load(open(fj))
+            shutil.rmtree(wd, ignore_errors=True)
+            try:
+                os.remove(binary)
+            except OSError:
+                pass
+        shutil.rmtree(outdir, ignore_errors=True)
+        if nxt is None:
+            break
+        nxt['property'] = prop
+        nxt['shrunk_from'] = cur.get('shrunk_from', 0) + 1
+        cur = nxt
+    return cur
+
+
 def replay_file(prop, part, path, attempts=None):
     """Run one saved scenario through the plain executor (TestReplay*). Returns (failed, output)."""
     if part.get('kind') == 'gen':
@@ -492,6 +534,13 @@ def check(prop, tier):
             continue
         os.makedirs(founddir, exist_ok=True)
         path = os.path.join(founddir, '%s-%s-seed%d-%d.json' % (prop, tier, base_seed, n))
+        sc = fail.get('scenario') or {}
+        if isinstance(sc, dict) and sc.get('engine') == 'E1' and not violations and not os.environ.get('VERIF_NOSHRINK'):
+            # shapes are shrunk by the driver (values were shrunk by rapid already); only the first finding, it costs compiles
+            try:
+                fail = shrink_e1(prop, part_for_failure(prop, fail), fail)
+            except Exception as ex:  # shrinking is a convenience, never a reason to lose the finding
+                fail['shrink_error'] = str(ex)
         fail['property'] = prop
         fail['found_by'] = what
         json.dump(fail, open(path, 'w'), indent=1)
